@@ -90,6 +90,9 @@ def apply_commands(base, file_cmds):
             if name == b"filerename":
                 moved_away.update(moved)
                 _remove(tree, src)
+            if dst in occupied or any(q in occupied for q in _under(tree, dst)):
+                # the commit itself has just put something at (or below) the destination: it is wiped out by this rename
+                notes.append(("rename-replaces-path-occupied-in-same-commit", dst))
             _remove(tree, dst)  # git: an existing destination is completely replaced
             _make_parents(tree, dst, notes)
             for p, v in moved.items():
